@@ -172,6 +172,8 @@ func parseHostPattern(str, full string) (HostPattern, string, error) {
 		Value: str, // temporary value, to be trimmed later
 		Kind:  peekKind(str),
 	}
+	// Only IPv6 addresses are (and must be) enclosed in square brackets.
+	bracketed := strings.HasPrefix(pattern.hostOnly(), "[")
 	host, str, ok := fastParseHost(pattern.hostOnly())
 	if !ok {
 		err := &cfgerrors.UnacceptableOriginPatternError{
@@ -215,6 +217,13 @@ func parseHostPattern(str, full string) (HostPattern, string, error) {
 			return zeroHostPattern, str, err
 		}
 		if ip.Zone() != "" {
+			err := &cfgerrors.UnacceptableOriginPatternError{
+				Value:  full,
+				Reason: "invalid",
+			}
+			return zeroHostPattern, str, err
+		}
+		if bracketed != ip.Is6() {
 			err := &cfgerrors.UnacceptableOriginPatternError{
 				Value:  full,
 				Reason: "invalid",
